@@ -44,6 +44,11 @@ def OP_EQ(
         left: func_xltypes.XlAnything,
         right: func_xltypes.XlAnything
 ) -> func_xltypes.XlBoolean:
+    # Not using `validate_args`, since native operands are compared as they
+    # are. Errors still have to propagate, the left one first.
+    for operand in (left, right):
+        if isinstance(operand, xlerrors.ExcelError):
+            return operand
     return left == right
 
 
@@ -52,6 +57,9 @@ def OP_NE(
         left: func_xltypes.XlAnything,
         right: func_xltypes.XlAnything
 ) -> func_xltypes.XlBoolean:
+    for operand in (left, right):
+        if isinstance(operand, xlerrors.ExcelError):
+            return operand
     return left != right
 
 
